@@ -82,3 +82,8 @@ claim("C14", "SSA provenance of table keys and of the user name on every way int
       "Decides: one normaliser for every table operation; stored tags have verifiers and equal the selecting key; the provider succeeds only through the selected verifier on the supplied password; the mapping is applied exactly once for PLAIN, LOGIN and the endpoints' direct AUTH PLAIN, both mechanisms report the client's name; unmapped names are refused when a map is configured; differing authorization identity refused before authentication; MAIL cannot start a transaction in the world 'auth required, nobody authenticated'; the gate is armed for submission; the user is recorded only after success. Histories of the table backend are not decided.",
       "trusts go/types, go/cfg, go/ssa", "DESIGN.md §3 C14")
 PENDING.pop("C14", None)
+
+claim("C15", "first-decision / world queries over go/cfg (three-valued evaluation of compound conditions), provenance of the lookup arguments through the normalisers, error-edge discipline, contradiction rule on repeatable header fields, equality-only acceptance of the entitlement predicate",
+      "Decides: with an empty authenticated user the routine performs nothing and refuses; envelope and header checks pass the session's user, the header check accepts only over an accepting result; user and address are normalised before the entitlement lookup; the header decision reads every From field and, with a From list, refuses or authorizes every address; each fallible step ends in the error action with a reason; the entitlement predicate accepts only by equality with address, domain or '*'. Table contents and net/mail parsing are not decided.",
+      "trusts go/types, go/cfg", "DESIGN.md §3 C15")
+PENDING.pop("C15", None)
